@@ -8,7 +8,7 @@ claim('C12',
       'engine are trusted, every model is replayed natively.',
       'symbolic execution of the real code with z3 (minisym), validity queries per path', 'DESIGN.md §4 C12')
 _todo = ('check not built yet in this round; see DESIGN.md §8 build order')
-for _p in ['C01', 'C02', 'C03', 'C04', 'C05', 'C06', 'C07', 'C11', 'C13', 'C14', 'C15', 'C16', 'C17', 'C20']:
+for _p in ['C03', 'C04', 'C05', 'C06', 'C07', 'C11', 'C13', 'C14', 'C15', 'C16', 'C17', 'C20']:
     na(_p, _todo)
 na('C19', 'PYTHONHASHSEED / process effects live in CPython C code and start-up, not reachable by symbolic execution of '
           'chython; modelling set order as arbitrary would over-approximate and raise false alarms (DESIGN.md C19)')
@@ -57,3 +57,21 @@ claim('C09',
       'finding (unknown hydrogen count encoded as zero); trusted: vlib/cysym.py as Cython semantics, z3.',
       'symbolic execution of the .pyx source (cysym) and of the real Python mask builders / reference matcher (minisym) '
       'with z3 bit-vector queries', 'DESIGN.md §4 C09')
+claim('C01',
+      'Every spelling chython\'s random-order writer can produce is explored by making random() a solver variable (one path per '
+      'distinct comparison outcome, exhaustion certified by unsat); each spelling is re-read and must give the same canonical '
+      'string, equal hash, equality, and canonical ranks transported along the written order; every renumbering and '
+      'atom/bond insertion order (permutation realised by the solver) of small seeds gives the same string.',
+      'Bounded: seed corpus (34 quick / 56 thorough molecules), DFS orders of the writer rather than all n! numberings for the '
+      'larger seeds; aromatic seeds normalised by kekule+thiele; documented heuristic gaps excluded; hash collisions outside.',
+      'symbolic execution of the real writer/reader/canonicaliser with z3-decided branch feasibility (minisym)',
+      'DESIGN.md §4 C01')
+claim('C02',
+      'Same device as C01 with the style flags a, A, m, h as solver booleans: every write order x flag combination of the seeds '
+      'is written by the real writer, re-read by the real reader and compared atom by atom in the written order (element, '
+      'isotope, charge, radical, hydrogens, bond orders, tetrahedral / allene / cis-trans configuration translated to one common '
+      'neighbour order); an independent reader sees the same atoms in the same order; labels are injective on seeds with free '
+      'charge/isotope/radical/stereo slots; atom-map boundary values.',
+      'Bounded: seed corpus; skeleton-level injectivity not claimed; aromatic re-reads are normalised by kekule+thiele before '
+      'comparing hydrogen counts (documented library behaviour).',
+      'symbolic execution of the real writer and reader with z3 (minisym)', 'DESIGN.md §4 C02')
